@@ -525,11 +525,57 @@ theorem run_coherent (d : StoreDesc) (hd : descOK d = true) (max : Nat) (ops : L
   rw [hs]
   exact ⟨h1, h2, h3⟩
 
-/-- the flag hypotheses of `view_insert`, `view_remove`, `as_dataset_mut_insert`, `run_coherent` hold
-for the source as it is now (regenerated on every run) -/
+/-! ### the source as it is now (flags regenerated from adapter.rs on every run)
+
+These facts are `decide`d against `Gen/AdapterFlags.lean`: if a body of /repo changes to call another
+method, they stop building (and the differential shows the failing history). -/
+
+/-- every mutating adapter method calls the right method of the wrapped store, and `UnionGraph` does
+not forward the atom enumerations to the dataset -/
 theorem forwarding_flags_now :
-    datasetGraphInsertCalls = .insert ∧ datasetGraphRemoveCalls = .remove ∧ graphAsDatasetInsertCalls = .insert := by
+    datasetGraphInsertCalls = .insert ∧ datasetGraphRemoveCalls = .remove ∧
+    graphAsDatasetInsertCalls = .insert ∧ graphAsDatasetRemoveCalls = .remove ∧
+    unionGraphForwardsAtoms = false := by
   decide
+
+/-- **Removing through `as_dataset_mut()`, unconditionally for the current source** -/
+theorem as_dataset_mut_remove_now : AsDatasetMutRemoveSpec :=
+  as_dataset_mut_remove forwarding_flags_now.2.2.2.1
+
+/-- **`UnionGraph`'s enumerations, unconditionally for the current source**: every enumeration of the
+union graph is the enumeration of its own triples (no graph names) — for every implementation -/
+theorem union_enum_now {σ : Type} (I : Impl σ) (s : σ) (which : String) :
+    UnionGraph.enumerate I s which = StoreProto.enumOf 3 which (UnionGraph.triples I s) := by
+  by_cases h1 : which = "subjects"
+  · exact union_enum_spo s which (Or.inl h1)
+  by_cases h2 : which = "predicates"
+  · exact union_enum_spo s which (Or.inr (Or.inl h2))
+  by_cases h3 : which = "objects"
+  · exact union_enum_spo s which (Or.inr (Or.inr h3))
+  exact union_enum_atoms forwarding_flags_now.2.2.2.2 s which ⟨h1, h2, h3⟩
+
+theorem union_enum_coherent_now : UnionEnumCoherent :=
+  fun d s _ _ which _ => union_enum_now (storeImpl d) s which
+
+/-- **Coherence over ALL histories, unconditionally for the current source** (`run_coherent` with its
+flag hypotheses discharged; `as_dataset_mut().remove` included) -/
+theorem run_coherent_now (d : StoreDesc) (hd : descOK d = true) (max : Nat) (ops : List VOp)
+    (hok : ∀ op ∈ ops, VOpOK d op) :
+    let s := ops.foldl (stepV d) (St.new d.shape max)
+    let σ := (ops.flatMap flatten).foldl (stepSF max d.n) ⟨[], []⟩
+    Good d s ∧ SameSet (abs s) σ.quads ∧ NodupQ (abs s) :=
+  run_coherent d hd max ops forwarding_flags_now.1 forwarding_flags_now.2.1 forwarding_flags_now.2.2.1
+    (Or.inl forwarding_flags_now.2.2.2.1) hok
+
+-- non-vacuity of `run_coherent_now`: a graph history through `as_dataset_mut()`, removal included
+example :
+    let t : Quad := ⟨.iri "x:s".toList, .iri "x:p".toList, .iri "x:o".toList, none⟩
+    let ops : List VOp := [.asdsIns t, .asdsIns { t with g := some (.iri "x:g".toList) }, .asdsRem t, .asdsRem t]
+    (∀ op ∈ ops, VOpOK Gen.genericLightGraph op) ∧ usesAsdsRem ops = true := by
+  refine ⟨?_, rfl⟩
+  intro op hop
+  simp only [List.mem_cons, List.mem_nil_iff, or_false] at hop
+  rcases hop with rfl | rfl | rfl | rfl <;> exact (rfl : Gen.genericLightGraph.n = 3)
 
 -- non-vacuity of `run_coherent`: a history through views of a 16-bit Fast dataset
 example :
